@@ -142,3 +142,69 @@ Definition actual_check (c : actual_case) : bool :=
   | (env, a, descents) => descents_ok a descents
   end.
 Definition actual_mismatches (cs : list actual_case) : list N := failing actual_check cs.
+
+(* ---- histories of describe calls (Model/DescribeHist.v) ---- *)
+From PcoreV Require Import Model.DescribeHist.
+
+(* what a call of a history was observed to answer: the structured description (px.VerifDescribe); the text of
+   px.DescribeMismatch, or the detail of the issue an assertion raised, as (class by the wording, the subject key
+   `function <name>:` that heads the line) per line; an assertion that returned; anything else that escaped *)
+Inductive hobserved := HDesc (o : observed) | HText (ms : list (mclass * str)) | HReturns | HRaises (ms : list (mclass * str)) | HCrash.
+Definition subject_key (m : mismatch) : str :=
+  match snd m with (PSubject, KName k) :: _ => k | _ => [] end.
+Definition line_eqb (x y : mclass * str) : bool := mclass_eqb (fst x) (fst y) && str_eqb (snd x) (snd y).
+Definition ans_obs (a : answer) (o : hobserved) : bool :=
+  match a, o with
+  | ADesc r, HDesc ob => res_obs r ob
+  | ADesc (Ok ms), HText l => list_eqb line_eqb (map (fun m => (fst m, subject_key m)) ms) l
+  | ADesc (Fault _), HCrash => true
+  | AOut (Ok Returns), HReturns => true
+  | AOut (Ok (Raises TypeMismatchIssue ms)), HRaises l => list_eqb line_eqb (map (fun m => (fst m, subject_key m)) ms) l
+  | AOut (Fault _), HCrash => true
+  | _, _ => false
+  end.
+Fixpoint all_ans (l : list answer) (o : list hobserved) : bool :=
+  match l, o with
+  | [], [] => true
+  | a :: l', x :: o' => ans_obs a x && all_ans l' o'
+  | _, _ => false
+  end.
+
+(* a history over named expected types, lattice actual types and values with the type the implementation inferred:
+   (expected objects, actual objects, value objects, calls, observed answers) against the state-passing run *)
+Definition nhist_case := (list nty * list ty * list (value * ty) * list call * list hobserved)%type.
+Definition nhist_check (o : oracle) (c : nhist_case) : bool :=
+  match c with
+  | (es, as_, vs, cs, obs) => all_ans (nrun (rx_of o) teq0 (World es as_ vs) [] cs) obs
+  end.
+Definition nhist_mismatches (o : oracle) (cs : list nhist_case) : list N := failing (nhist_check o) cs.
+
+(* a history over ANY objects (nested aliases, Object types, Callables, ...): the objects are opaque identities, the
+   generic model is instantiated with what the implementation answered when each call was made ALONE on freshly built
+   objects - tables of IsAssignable (expected, actual), IsInstance (expected, value) and the structured description
+   (subject, expected, actual); the detailed type of value object v is the actual identity 1000 + v - and its run is
+   compared with the answers observed in the history *)
+Definition otab := list (str * N * N * observed).
+Definition btab := list (N * N * bool).
+Fixpoint otab_get (t : otab) (name : str) (e a : N) : res (list mismatch) :=
+  match t with
+  | [] => Fault FMergeFirst
+  | (n, e', a', ob) :: r =>
+      if (str_eqb name n && N.eqb e e' && N.eqb a a')%bool
+      then match ob with OList ms => Ok ms | OCrash => Fault FNilType end
+      else otab_get r name e a
+  end.
+Fixpoint btab_get (t : btab) (x y : N) : bool :=
+  match t with
+  | [] => false
+  | (x', y', b) :: r => if (N.eqb x x' && N.eqb y y')%bool then b else btab_get r x y
+  end.
+Definition seqN (n : nat) : list N := map N.of_nat (seq 0 n).
+Definition ohist_case := (otab * btab * btab * (nat * nat * nat) * list call * list hobserved)%type.
+Definition ohist_check (c : ohist_case) : bool :=
+  match c with
+  | (dtab, atab, itab, (ne, na, nv), cs, obs) =>
+      all_ans (hrun N N N (btab_get atab) (btab_get itab) (otab_get dtab) (fun v => (1000 + v)%N)
+                 (World (seqN ne) (seqN na) (seqN nv)) [] cs) obs
+  end.
+Definition ohist_mismatches (cs : list ohist_case) : list N := failing ohist_check cs.
